@@ -389,7 +389,9 @@ def rule_complexity(rep, crate):
         elif v == 'Literal':
             units = [n for n in names if re.search(r'(Chars<.*> as std::iter::Iterator>::count|slice::<impl \[T\]>::len|str::<impl str>::len|Iterator::count)$', n)]
             twos = [r for r in a['rets'] if re.search(r'^(Mul|MulWithOverflow)\((const:2,call:.*(count|len)\(|call:.*(count|len)\(.*,const:2\))', r) or re.search(r'^\?place$|^local\.0$', r)]
-            ok = bool(units) and bool(mul) and not rec and not add
+            has_chars = any(re.search(r'Chars<.*> as std::iter::Iterator>::count$|Iterator::count$', n) for n in names) and any(re.search(r'from_utf8$', n) for n in names)
+            has_bytes = any(re.search(r'slice::<impl \[T\]>::len$|Vec::<T, A>::len$', n) for n in names)
+            ok = bool(units) and bool(mul) and not rec and not add and has_chars and has_bytes
             # every returned value is 2 x something
             consts = set()
             for b in a['blocks']:
@@ -400,7 +402,7 @@ def rule_complexity(rep, crate):
                             if c is not None:
                                 consts.add(c)
             ok = ok and consts == {2}
-            why = 'must be 2 x the number of chars (valid UTF-8) or bytes; found multipliers %s' % sorted(consts)
+            why = 'must be 2 x the number of chars when the literal is valid UTF-8 and 2 x the number of bytes otherwise (chars: %s, bytes: %s, multipliers %s)' % (has_chars, has_bytes, sorted(consts))
         elif v == 'Repetition':
             ok = len(rec) == 1 and bool(mul) and 'min' in a['fields'] and 'sub' in a['fields'] and not add and not reducers
             why = 'must be repetition.min x complexity(repetition.sub)'
@@ -701,6 +703,24 @@ def rule_subpatterns(rep, crate):
                 rep.inst(rb, 'subst:hit', detail=pd)
                 if len(pushes) != 1 or not re.fullmatch(r'call:<std::string::String as std::ops::Deref>::deref\(call:std::collections::HashMap::<K, V, S, A>::get\.0\.pattern\)', pd[0]):
                     rep.viol(rb, 'subst:hit-fragment', 'on a hit the spliced fragment is %s, expected the stored pattern (&subpattern.pattern) of the looked-up entry' % pd, loc(fn))
+    # the text after the last reference is appended whenever any is left: guard `current_pos < pattern.len()` in bytes
+    if fn is not None:
+        tails = []
+        for sb in switches(fn):
+            c = cond_of_switch(fn, sb)
+            if not c or c['root'][0] != 'bin' or c['root'][2]['rhs']['bop'] not in ('Lt', 'Gt', 'Le', 'Ge', 'Ne'):
+                continue
+            rhs = c['root'][2]['rhs']
+            ds = [desc(fn, rhs['a']), desc(fn, rhs['b'])]
+            if any(d == 'call:core::str::<impl str>::len(param2)' for d in ds):
+                pushes = [b for b, t in find_calls(fn, r'vec::Vec::<T, A>::push$') if fn.edge_dominates((c['bb'], c['t']), b)]
+                if pushes:
+                    tails.append(ds)
+            elif any('count' in d or 'chars' in d for d in ds):
+                rep.viol(rb, 'subst:tail-guard-units', 'a position in the pattern text is compared with a character count (%s): offsets are byte offsets, text after the last reference is dropped for non-ASCII patterns' % ds, loc(fn, fn.blocks[sb]['term']['line']))
+        rep.inst(rb, 'subst:tail', detail=tails)
+        if not tails:
+            rep.viol(rb, 'subst:tail-missing', 'the text after the last subpattern reference is not appended under `current_pos < pattern.len()`', loc(fn))
     # ---- Subpatterns::new: substitute (against the table built so far) before insert
     ra = rep.rule('M-C11a', '')
     fn = crate.fns.get('parser::subpattern::Subpatterns::new')
@@ -1019,7 +1039,7 @@ def rule_utf8_gate(rep, crate):
             # it iterates over all leaves (pats)
             recv = desc(fn, t['args'][0])
             detail['over'] = recv[:80]
-            if not re.search(r'slice::<impl \[T\]>::iter\(call:<std::vec::Vec<T, A> as std::ops::Deref>::deref\(', recv):
+            if not re.match(r'call:core::slice::<impl \[T\]>::iter\(call:<std::vec::Vec<T, A> as std::ops::Deref>::deref\(', recv):
                 rep.viol(rid, 'gate:filter-domain', 'the non-UTF-8 filter does not run over the whole pattern vector (%s)' % recv[:120], loc(fn, t['line']))
             # errors: Parser::err calls control dependent on utf8_mode and on the filtered collection
             der = derived_locals(fn, src[0])
